@@ -142,6 +142,15 @@ class CallGraph:
                     return self.classes_of_annotation(prog.functions[full].module, prog.functions[full].node.returns)
                 if name.split(".")[-1] == "cast" and len(expr.args) == 2:
                     return self.classes_of_annotation(mod, expr.args[0])
+            if isinstance(f, ast.Attribute) and f.attr in ("pop", "popleft") and isinstance(f.value, ast.Name):
+                # an element taken from a local declared `name: list[T] = ...` (a work list): T - provided every other binding of the name
+                # and everything appended to it is accounted for by that declaration (no other assignment to the name)
+                decls = [n for n in walk_no_nested(fn.node) if isinstance(n, ast.AnnAssign) and isinstance(n.target, ast.Name) and n.target.id == f.value.id]
+                others = [n for n in walk_no_nested(fn.node) if isinstance(n, ast.Name) and n.id == f.value.id and isinstance(n.ctx, ast.Store)]
+                if len(decls) == 1 and len(others) == 1 and f.value.id not in fn.params:
+                    el = self._elem_classes_of_annotation(mod, decls[0].annotation)
+                    if el:
+                        return el
             if isinstance(f, ast.Attribute):
                 out: list[ClassInfo] = []
                 for c in self.type_of(fn, f.value, _depth + 1):
